@@ -302,6 +302,9 @@ func init() {
 			if s.Op == "uf" && s.Name == "be64" && nbytes == 8 {
 				return s.Args[0]
 			}
+			if ps := parts(s); nbytes == 8 && len(ps) > 0 && ps[0].Op == "uf" && ps[0].Name == "be64" {
+				return ps[0].Args[0] // the first eight bytes spell this word
+			}
 			if !e.exactBE && nbytes == 8 {
 				if c, ok := goStr(s); ok && len(c) >= 8 {
 					var v uint64
